@@ -155,6 +155,29 @@ pub fn run(w: &mut impl std::io::Write) {
                 }
                 _ => false,
             },
+            "ES" if head.len() == 2 => match unhex(head[1]) {
+                Some(d) => {
+                    crate::es::es_line(&d, w);
+                    true
+                }
+                None => false,
+            },
+            "EB" if head.len() == 5 => {
+                let n: usize = head[1].parse().unwrap_or(usize::MAX);
+                match (unhex(head[2]), head[3].parse::<usize>(), head[4].parse::<usize>()) {
+                    (Some(mem), Ok(ri), Ok(wi)) if mem.len() == n && ri <= wi && wi <= n => match n {
+                        0 => crate::es::eb_line::<0>(&mem, ri, wi, w),
+                        1 => crate::es::eb_line::<1>(&mem, ri, wi, w),
+                        2 => crate::es::eb_line::<2>(&mem, ri, wi, w),
+                        3 => crate::es::eb_line::<3>(&mem, ri, wi, w),
+                        4 => crate::es::eb_line::<4>(&mem, ri, wi, w),
+                        255 => crate::es::eb_line::<255>(&mem, ri, wi, w),
+                        4096 => crate::es::eb_line::<4096>(&mem, ri, wi, w),
+                        _ => false,
+                    },
+                    _ => false,
+                }
+            }
             _ => crate::replay_other(l, w),
         };
         if !ok {
